@@ -35,6 +35,7 @@ from harness.core import digest
 
 z3wrapper.check_z3 = False
 TRM = {}
+SEEN_MACRO = {}
 
 
 def tid_of(t):
@@ -144,7 +145,9 @@ def harvest_proof(out, prf, origin, rnd, depth=0):
         if any(p is None for p in prev_ths):
             continue
         run_invocation(out, it.rule, it.args, prev_ths, origin)
-        if rnd.random() < 0.3:
+        SEEN_MACRO[it.rule] = SEEN_MACRO.get(it.rule, 0) + 1
+        # the first invocations of every macro are always mutated (rarely used macros would otherwise never be)
+        if SEEN_MACRO[it.rule] <= 8 or rnd.random() < 0.3:
             mutate(out, it.rule, it.args, prev_ths, origin, rnd)
         if depth < 2:
             macro = theory.get_macro(it.rule)
@@ -229,6 +232,40 @@ def fresh_instances(out, rnd, n):
         run_invocation(out, "imp_disj", Implies(a, b), [], "fresh")
         t = rnd.choice([Implies(A, A), Eq(A, A), Implies(A, Implies(B, A)), Implies(conj(2), conj(2)), Eq(conj(2), conj(2))])
         run_invocation(out, "trivial", t, [], "fresh")
+    # quantified instances of `trivial` and higher-order instantiations of apply_theorem_for
+    from kernel.term import Forall, Lambda, Exists
+    from kernel.type import TVar, TFun
+    a_ = TVar("a")
+    x, y, z = Var("x", a_), Var("y", a_), Var("z", a_)
+    Pv, Qv = Var("P", TFun(a_, BoolType)), Var("Q", TFun(a_, a_, BoolType))
+    for t in [Forall(x, Implies(Pv(x), Pv(x))), Forall(x, Forall(y, Implies(Qv(x, y), Qv(x, y)))),
+              Forall(x, Forall(y, Forall(z, Implies(Qv(x, y), Implies(Pv(z), Qv(x, y)))))), Forall(x, Forall(y, Eq(Qv(x, y), Qv(x, y)))),
+              Forall(y, Forall(x, Implies(Qv(x, y), Qv(x, y))))]:
+        run_invocation(out, "trivial", t, [], "fresh-quantified")
+    c = Var("c", a_)
+    ident = Lambda(Var("u", a_), Var("u", a_))
+    for name in ("exI", "allE", "allI", "exE"):
+        try:
+            th = theory.get_theorem(name)
+        except Exception:
+            continue
+        for variant in range(3):
+            try:
+                inst = Inst()
+                for sv in th.prop.get_svars():
+                    T = sv.T
+                    if T.is_fun():
+                        argTs, _ = T.strip_type()
+                        inst[sv.name] = Var("H_" + sv.name, T) if variant != 2 else Lambda(Var("w", argTs[0]), Var("H_" + sv.name, T)(Var("w", argTs[0])))
+                    else:
+                        v = Var("c_" + sv.name, T)
+                        # a beta-redex as instance (variant 0), a plain variable (1), a redex inside an application (2)
+                        inst[sv.name] = Lambda(Var("u", T), Var("u", T))(v) if variant != 1 else v
+                As, C = th.prop.subst_norm(inst).strip_implies()
+                pts = [Thm(A) for A in As]
+                run_invocation(out, "apply_theorem_for", (name, inst), pts, "fresh-higher-order")
+            except Exception as e:
+                sys.stderr.write("fresh-higher-order skipped %s: %r\n" % (name, e))
 
 
 def harvest(out_path, seed, n_per, theories):
